@@ -1,8 +1,233 @@
-import Model.RBTree
+import Lemmas.RBRun
+/-! # C06 — the red-black tree behaves as a stably ordered multimap and stays balanced
+
+Property theorems only.  The executable model is `Model/RBTree.lean` (`RB.T` = node structure, `RB.Tree` = root +
+count, every operation returning also its number of `compare` calls); it is the model the driver `drv_c06` runs against
+`redblack.Tree[int,int]` on every check (results, compare counts, node shape and colours).  Helper lemmas are in
+`Lemmas/RBInv.lean`, `RBOrder.lean`, `RBRun.lean`.
+
+`cmp : K → K → Ordering` is the user's compare function; `RB.TotalPreorder cmp` is the explicit hypothesis that it is a
+total preorder (distinguishable keys may compare equal).  The specification `RB.Spec` is a list of `(key, value)`
+sorted by key with equal keys in insertion order: `Spec.insert` puts the entry after every entry whose key is ≤ the new
+key, `Spec.remove` erases the first entry whose key compares equal, `Spec.visit f` feeds the entries to the visitor in
+list order until it returns `false`. -/
 namespace C06
 open RB
 
-/-- placeholder while the harness is wired -/
-theorem empty_count {K V : Type} : (Tree.empty : Tree K V).count = 0 := rfl
+variable {K V σ : Type} {cmp : K → K → Ordering}
+
+/-! ## balance -/
+
+/-- **balance clause** — after any history of `Insert`/`Remove` from the empty tree (any compare function at all) the
+    red-black invariants hold: equal black height on all paths, no red node has a red child, the root is black -/
+theorem run_inv (cmp : K → K → Ordering) (ops : List (Op K V)) : T.Inv (Tree.run cmp ops).root := by
+  suffices h : ∀ (t : Tree K V), T.Inv t.root → T.Inv (ops.foldl (Tree.apply cmp) t).root from
+    h Tree.empty ⟨by simp [Tree.empty, T.balB], by simp [Tree.empty, T.noRR], rfl⟩
+  induction ops with
+  | nil => intro t h; exact h
+  | cons op ops ih =>
+    intro t h
+    apply ih
+    obtain ⟨hb, hn, hr⟩ := h
+    cases op with
+    | ins k v => exact T.insert_inv cmp t.root k v hb hn
+    | rem k =>
+      simp only [Tree.apply, Tree.remove]
+      cases T.find cmp t.root k with
+      | none => exact ⟨hb, hn, hr⟩
+      | some e => exact T.remove_inv cmp t.root k hb hn
+
+/-- **balance clause** — a tree satisfying the invariants has height at most `2·log2(n+1)` -/
+theorem height_le (t : T K V) (h : T.Inv t) : T.height t ≤ 2 * Nat.log2 (T.size t + 1) :=
+  T.height_log t h.1 h.2.1 h.2.2
+
+/-- the height bound for every reachable tree, in terms of `Count()` -/
+theorem height_run (hc : TotalPreorder cmp) (ops : List (Op K V)) :
+    T.height (Tree.run cmp ops).root ≤ 2 * Nat.log2 ((Tree.run cmp ops).count + 1) := by
+  have g := Tree.run_good hc ops
+  have := height_le _ (run_inv cmp ops)
+  rw [T.size_eq_length, g.inorder, ← g.count] at this
+  exact this
+
+/-! ## single operations on a search tree -/
+
+/-- **Insert is stable insertion** — the in-order sequence after `Insert(k, v)` is the old one with `(k, v)` placed
+    after every entry whose key is ≤ `k` (so after all equal keys: insertion order among duplicates) -/
+theorem insert_inorder (hc : TotalPreorder cmp) (t : Tree K V) (k : K) (v : V) (hs : T.Sorted cmp t.root) :
+    T.inorder (t.insert cmp k v).1.root = Spec.insert cmp (T.inorder t.root) k v :=
+  T.insert_inorder hc t.root k v hs
+
+/-- **Remove erases exactly the first entry (in traversal order) whose key compares equal**, and nothing when there
+    is none (removal of an absent key) -/
+theorem remove_inorder (hc : TotalPreorder cmp) (t : Tree K V) (k : K) (hs : T.Sorted cmp t.root) :
+    T.inorder (t.remove cmp k).1.root = Spec.remove cmp (T.inorder t.root) k := by
+  simp only [Tree.remove]
+  have hfind := T.find_eq hc t.root k hs
+  cases hf : T.find cmp t.root k with
+  | none =>
+    rw [hf] at hfind
+    exact (List.eraseP_of_forall_not (List.find?_eq_none.mp hfind.symm)).symm
+  | some e => exact T.remove_inorder hc t.root k hs
+
+/-- search-tree order is kept by both mutations -/
+theorem sorted_step (hc : TotalPreorder cmp) (t : Tree K V) (op : Op K V) (hs : T.Sorted cmp t.root) :
+    T.Sorted cmp (t.apply cmp op).root := by
+  cases op with
+  | ins k v => exact T.insert_sorted hc t.root k v hs
+  | rem k =>
+    simp only [Tree.apply, Tree.remove]
+    cases T.find cmp t.root k with
+    | none => exact hs
+    | some e => exact T.remove_sorted hc t.root k hs
+
+/-- **Get returns the value of the first entry in order whose key compares equal** (`none` = "does not exist") -/
+theorem get_first (hc : TotalPreorder cmp) (t : Tree K V) (k : K) (hs : T.Sorted cmp t.root) :
+    (t.get cmp k).1 = ((T.inorder t.root).find? (fun e => cmp k e.1 == .eq)).map (·.2) := by
+  simp only [Tree.get, T.find_eq hc t.root k hs]
+
+/-- **First / Last** are the values of the first and of the last entry of the in-order sequence -/
+theorem first_last (t : Tree K V) :
+    t.first = (T.inorder t.root).head?.map (·.2) ∧ t.last = (T.inorder t.root).getLast?.map (·.2) := by
+  simp only [Tree.first, Tree.last, T.first_eq, T.last_eq, and_self]
+
+/-- **Traverse** feeds the entries to the visitor in order and stops at the first `false` -/
+theorem traverse_spec (t : Tree K V) (f : σ → K → V → σ × Bool) (s : σ) :
+    t.traverse f s = (Spec.visit f (T.inorder t.root) s).1 := by
+  simp only [Tree.traverse, T.traverse_eq]
+
+/-- **ReverseTraverse** does the same on the reversed sequence -/
+theorem reverseTraverse_spec (t : Tree K V) (f : σ → K → V → σ × Bool) (s : σ) :
+    t.reverseTraverse f s = (Spec.visit f (T.inorder t.root).reverse s).1 := by
+  simp only [Tree.reverseTraverse, T.reverseTraverse_eq]
+
+/-- **TraverseStartingAt** starts at the first entry in order whose key is equal to or greater than `key` and visits
+    exactly the entries from there on, stopping at the first `false` -/
+theorem traverseFrom_spec (hc : TotalPreorder cmp) (t : Tree K V) (key : K) (f : σ → K → V → σ × Bool) (s : σ)
+    (hs : T.Sorted cmp t.root) :
+    (t.traverseStartingAt cmp key f s).1
+      = (Spec.visit f ((T.inorder t.root).dropWhile (fun e => cmp key e.1 == .gt)) s).1 := by
+  have := T.traverseGE_eq hc key f t.root s 0 hs
+  simp only [Tree.traverseStartingAt]
+  rw [← this]
+
+/-- **ReverseTraverseStartingAt** starts at the last entry in order whose key is equal to or less than `key` and
+    visits exactly the entries before it in reverse order, stopping at the first `false` -/
+theorem reverseTraverseFrom_spec (hc : TotalPreorder cmp) (t : Tree K V) (key : K) (f : σ → K → V → σ × Bool) (s : σ)
+    (hs : T.Sorted cmp t.root) :
+    (t.reverseTraverseStartingAt cmp key f s).1
+      = (Spec.visit f ((T.inorder t.root).reverse.dropWhile (fun e => cmp key e.1 == .lt)) s).1 := by
+  have := T.traverseLE_eq hc key f t.root s 0 hs
+  simp only [Tree.reverseTraverseStartingAt]
+  rw [← this]
+
+/-! ## arbitrary histories -/
+
+/-- **refinement** — after any history from the empty tree the in-order sequence of the tree is the specification
+    list: exactly the inserted-and-not-removed entries, in key order, equal keys in insertion order -/
+theorem inorder_run (hc : TotalPreorder cmp) (ops : List (Op K V)) :
+    T.inorder (Tree.run cmp ops).root = Spec.run cmp ops :=
+  (Tree.run_good hc ops).inorder
+
+/-- **Count** is the number of inserted-and-not-removed entries (and `Empty` says whether it is zero) -/
+theorem count_run (hc : TotalPreorder cmp) (ops : List (Op K V)) :
+    (Tree.run cmp ops).count = (Spec.run cmp ops).length ∧
+    (Tree.run cmp ops).isEmpty = (Spec.run cmp ops).isEmpty := by
+  have h := (Tree.run_good hc ops).count
+  refine ⟨h, ?_⟩
+  simp only [Tree.isEmpty, h]
+  cases Spec.run cmp ops <;> simp
+
+/-- every reachable tree is a search tree (so the single-operation theorems above apply to it), and the specification
+    list is sorted by key -/
+theorem sorted_run (hc : TotalPreorder cmp) (ops : List (Op K V)) :
+    T.Sorted cmp (Tree.run cmp ops).root ∧ (Spec.run cmp ops).Pairwise (fun a b => cmp a.1 b.1 ≠ .gt) := by
+  have g := Tree.run_good hc ops
+  refine ⟨g.sorted, ?_⟩
+  have := g.sorted
+  unfold T.Sorted at this
+  rw [g.inorder] at this
+  exact this
+
+/-- **queries after any history**, stated directly on the specification list `Spec.run cmp ops`: `Get` returns the
+    first equal entry, `First`/`Last` the two ends, `Traverse`/`ReverseTraverse` visit the list (reversed) up to the
+    first `false` -/
+theorem queries_run (hc : TotalPreorder cmp) (ops : List (Op K V)) (k : K) (f : σ → K → V → σ × Bool) (s : σ) :
+    ((Tree.run cmp ops).get cmp k).1 = ((Spec.run cmp ops).find? (fun e => cmp k e.1 == .eq)).map (·.2) ∧
+    (Tree.run cmp ops).first = (Spec.run cmp ops).head?.map (·.2) ∧
+    (Tree.run cmp ops).last = (Spec.run cmp ops).getLast?.map (·.2) ∧
+    (Tree.run cmp ops).traverse f s = (Spec.visit f (Spec.run cmp ops) s).1 ∧
+    (Tree.run cmp ops).reverseTraverse f s = (Spec.visit f (Spec.run cmp ops).reverse s).1 := by
+  have hs := (sorted_run hc ops).1
+  have hi := inorder_run hc ops
+  refine ⟨?_, ?_, ?_, ?_, ?_⟩
+  · rw [get_first hc _ k hs, hi]
+  · rw [(first_last _).1, hi]
+  · rw [(first_last _).2, hi]
+  · rw [traverse_spec, hi]
+  · rw [reverseTraverse_spec, hi]
+
+/-- **bounded traversals after any history**: `TraverseStartingAt(key)` visits the specification list from its first
+    entry with key ≥ `key`; `ReverseTraverseStartingAt(key)` visits the reversed list from its first entry (= the last
+    in order) with key ≤ `key`; both stop at the first `false` -/
+theorem traverseFrom_run (hc : TotalPreorder cmp) (ops : List (Op K V)) (key : K) (f : σ → K → V → σ × Bool) (s : σ) :
+    ((Tree.run cmp ops).traverseStartingAt cmp key f s).1
+      = (Spec.visit f ((Spec.run cmp ops).dropWhile (fun e => cmp key e.1 == .gt)) s).1 ∧
+    ((Tree.run cmp ops).reverseTraverseStartingAt cmp key f s).1
+      = (Spec.visit f ((Spec.run cmp ops).reverse.dropWhile (fun e => cmp key e.1 == .lt)) s).1 := by
+  have hs := (sorted_run hc ops).1
+  have hi := inorder_run hc ops
+  exact ⟨by rw [traverseFrom_spec hc _ key f s hs, hi], by rw [reverseTraverseFrom_spec hc _ key f s hs, hi]⟩
+
+/-! ## number of key comparisons -/
+
+/-- **lookups** (`Get`) call `compare` once per node of one downward path: at most `height` times -/
+theorem compares_find (t : Tree K V) (k : K) : (t.get cmp k).2 ≤ T.height t.root :=
+  T.findCmps_le_height cmp t.root k
+
+/-- **Insert** calls `compare` at most `height + 1` times -/
+theorem compares_insert (t : Tree K V) (k : K) (v : V) : (t.insert cmp k v).2 ≤ T.height t.root + 1 :=
+  T.insertCmps_le cmp t.root k
+
+/-- **Remove** calls `compare` exactly as often as the lookup of the same key -/
+theorem compares_remove (t : Tree K V) (k : K) : (t.remove cmp k).2 = (t.get cmp k).2 := rfl
+
+/-- the bounded traversals call `compare` at most once per node (they are not lookups: their cost includes the visit) -/
+theorem compares_traverseFrom (t : Tree K V) (key : K) (f : σ → K → V → σ × Bool) (s : σ) :
+    (t.traverseStartingAt cmp key f s).2 ≤ T.size t.root ∧
+    (t.reverseTraverseStartingAt cmp key f s).2 ≤ T.size t.root := by
+  have h1 := (T.traverseGE_cmps cmp key f t.root s 0).2
+  have h2 := (T.traverseLE_cmps cmp key f t.root s 0).2
+  simp only [Tree.traverseStartingAt, Tree.reverseTraverseStartingAt]
+  omega
+
+/-- **O(log n) clause** — on every reachable tree with `n = Count()` entries a lookup or removal makes at most
+    `2·log2(n+1)` comparisons and an insertion at most `2·log2(n+1) + 1` (the "plus the number of equal entries"
+    allowance of the property is not needed by the repaired `find`) -/
+theorem compares_run (hc : TotalPreorder cmp) (ops : List (Op K V)) (k : K) (v : V) :
+    ((Tree.run cmp ops).get cmp k).2 ≤ 2 * Nat.log2 ((Tree.run cmp ops).count + 1) ∧
+    ((Tree.run cmp ops).remove cmp k).2 ≤ 2 * Nat.log2 ((Tree.run cmp ops).count + 1) ∧
+    ((Tree.run cmp ops).insert cmp k v).2 ≤ 2 * Nat.log2 ((Tree.run cmp ops).count + 1) + 1 := by
+  have h := height_run hc ops
+  have h1 := compares_find (cmp := cmp) (Tree.run cmp ops) k
+  have h2 := compares_insert (cmp := cmp) (Tree.run cmp ops) k v
+  refine ⟨by omega, ?_, by omega⟩
+  rw [compares_remove]; omega
+
+/-! ## the hypothesis is satisfiable: the compare functions of the correspondence run are total preorders -/
+
+/-- a total preorder pulled back along any key projection is a total preorder -/
+theorem totalPreorder_comap {J : Type} {c : J → J → Ordering} (hc : TotalPreorder c) (f : K → J) :
+    TotalPreorder (fun a b => c (f a) (f b)) :=
+  ⟨fun a b => hc.swap (f a) (f b), fun a b d => hc.trans (f a) (f b) (f d)⟩
+
+/-- both compare modes of the driver (`plain`, `div10`) satisfy the hypothesis of the theorems above -/
+theorem cmpOf_totalPreorder (div10 : Bool) : TotalPreorder (cmpOf div10) := by
+  cases div10 with
+  | false => exact int_totalPreorder
+  | true => exact totalPreorder_comap int_totalPreorder (fun a : Int => a.tdiv 10)
+
+/-! non-vacuity: a concrete history with duplicates (5,5,5 then remove 5): the first duplicate goes -/
+example : T.inorder (Tree.run (cmpOf false) [.ins 5 1, .ins 5 2, .ins 5 3, .rem 5]).root = [(5, 2), (5, 3)] := by
+  decide
 
 end C06
